@@ -25,9 +25,9 @@ theorem numberStep_preserves (last : Nat) (u : AUnit) :
 theorem numberStep_auto (last : Nat) (u : AUnit) (hp : u.picNum = none)
     (hk : (isPictureCode u.code || isFragmentCode u.code) = true) :
     (numberStep last u).1.picNum =
-      some (if (isPictureCode u.code || u.sliceCount.getD 0 == 0) = true then (last + 1) % M32 else last) ∧
+      some (if (isPictureCode u.code || u.sliceCount.getD VC2.Gen.default_fragment_slice_count == 0) = true then (last + 1) % M32 else last) ∧
     (numberStep last u).2 =
-      (if (isPictureCode u.code || u.sliceCount.getD 0 == 0) = true then (last + 1) % M32 else last) := by
+      (if (isPictureCode u.code || u.sliceCount.getD VC2.Gen.default_fragment_slice_count == 0) = true then (last + 1) % M32 else last) := by
   unfold numberStep
   simp [hk, hp]
 
@@ -147,7 +147,7 @@ theorem versionFill_spec (mv : Int) : ∀ (us : List AUnit) (a : Bool) (i : Nat)
 /-- a transform whose version implication is below 3 uses no extended transform feature: removing
     its extended transform parameters changes nothing that is decoded -/
 theorem tpVersion_lt3 (t : TP) (h : tpVersion t < 3) :
-    t.waveletHo.getD t.wavelet = t.wavelet ∧ t.depthHo.getD 0 = 0 := by
+    t.who = t.w ∧ t.dho = 0 := by
   unfold tpVersion VC2.Gen.wavelet_transform_version_implication at h
   split at h
   · omega
@@ -156,9 +156,9 @@ theorem tpVersion_lt3 (t : TP) (h : tpVersion t < 3) :
     · omega
     · rename_i h1
       constructor
-      · have : ((t.wavelet : Nat) : Int) = ((t.waveletHo.getD t.wavelet : Nat) : Int) := Decidable.not_not.1 h1
+      · have : ((t.w : Nat) : Int) = ((t.who : Nat) : Int) := Decidable.not_not.1 h1
         omega
-      · have : ((t.depthHo.getD 0 : Nat) : Int) = 0 := Decidable.not_not.1 h0
+      · have : ((t.dho : Nat) : Int) = 0 := Decidable.not_not.1 h0
         omega
 
 /-! offsets -/
